@@ -329,6 +329,8 @@ def klass(act):
         return "%s/%s" % (n, act["kind"])
     if n == "Create":
         return "Create/%s/rows%s" % (act["via"], "0" if act["rows"] == 0 else "N")
+    if n == "WriteRows":
+        return "WriteRows/%s" % ("unsorted" if act.get("may_refuse") else "sorted")
     if n in ("WriteColumn", "WriteCell"):
         extra = ""
         if n == "WriteColumn":
@@ -375,6 +377,12 @@ def replay_one(tx):
         sess.state = tx["from"]
         exc = sess.apply(act, tx["to"])
         res["calls"] += 1
+        if exc is not None and act.get("may_refuse"):
+            # an index list that is not increasing may be refused - then nothing may have changed
+            d = diff(exp_from, project(sess.blk))
+            if d:
+                finding("state", "refused_but_changed" + d[0].split("[")[0], {"path": d[0], "expected": d[1], "observed": d[2]})
+            return res
         if (exc is None) != (act["out"] == "ok"):
             finding("outcome", "accepted" if exc is None else "raised_" + type(exc).__name__,
                     {"expected": act["out"], "observed": "ok" if exc is None else repr(exc)[:200]})
@@ -451,7 +459,7 @@ def owner_of(f):
 def make_runs(tier, seed):
     quick = tier != "thorough"
     return [runner.ExportRun("MC_NixFrame", "MC_C16_quick.cfg" if quick else "MC_C16.cfg", seed, "harness.c16",
-                             stride=4 if quick else 6, label=lambda tx: klass(tx["act"]) + ":" + tx["act"]["out"])]
+                             stride=12 if quick else 6, label=lambda tx: klass(tx["act"]) + ":" + tx["act"]["out"])]
 
 
 def run(tier, seed, verdict):
@@ -467,7 +475,7 @@ def run(tier, seed, verdict):
                      "write_to_csv / print_table are presentation and not driven"],
         tlc_props=["ShapeMatches", "RefusedUnchanged", "CellFrame", "AppendKeeps", "TypesFixed"],
         need=("Create/col_dict/rowsN:ok", "Create/names_data/rowsN:ok", "Create/structured/rowsN:ok",
-              "Create/names_dtypes/rows0:ok", "AppendRows:ok", "WriteRows:ok", "WriteColumn/index/first:ok",
+              "Create/names_dtypes/rows0:ok", "AppendRows:ok", "WriteRows/sorted:ok", "WriteRows/unsorted:ok", "WriteColumn/index/first:ok",
               "WriteColumn/name:ok", "WriteCell/position:ok", "WriteCell/name:ok", "SetUnits:ok",
               "Bad/writerows_oob:refused", "Bad/appendcol_dupname:refused"))
 
